@@ -80,8 +80,8 @@ def mutations(ctx, rng, name, f):
     out = []
     full = len(f) <= 16 and not ctx.quick
     for pos in range(0, len(f)):
-        vals = range(256) if full else rng.sample(range(256), 40 if not ctx.quick else 12) + [0, 0xFF, f[pos] ^ 0x08, f[pos] ^ 0x80, (f[pos] + 1) & 255]
-        for v in vals:
+        vals = range(256) if full else rng.sample(range(256), 40 if not ctx.quick else 12) + list(range(0, 9)) + [0xFF, f[pos] ^ 0x08, f[pos] ^ 0x80, (f[pos] + 1) & 255]
+        for v in sorted(set(vals)):
             if v != f[pos]:
                 out.append(("sub", pos, f[:pos] + bytes([v]) + f[pos + 1:]))
     for k in range(0, len(f)):
@@ -89,6 +89,9 @@ def mutations(ctx, rng, name, f):
     for pos in range(2, len(f) + 1):
         for v in ([0x00, 0x0E, 0x0F, 0x1E, 0xFF] if ctx.quick else [0x00, 0x09, 0x0E, 0x0F, 0x1E, 0x2E, 0x3F, 0x55, 0xFE, 0xFF]):
             out.append(("ins", pos, f[:pos] + bytes([v]) + f[pos:]))
+    # directed: every character-string tag, every charset octet x odd / even / ill-formed content
+    for i, m in enumerate(C.string_mutations(name, f)):
+        out.append(("str", 6 + i, m))
     return out
 
 
@@ -239,8 +242,7 @@ def run(ctx):
     core.bind_repo()
     corpus(ctx)
     core.run_shards(ctx, "harness.c10", "shard", specs(ctx))
-    if getattr(ctx, "model_ok", False):
-        model_side(ctx)
+    model_side(ctx)
 
 
 def model_side(ctx):
@@ -287,16 +289,17 @@ def batch_judge(frames, out, residue):
 def replay(ctx, payload):
     rec = payload.get("failure") or {}
     case = rec.get("case") or {}
-    frames = [bytes.fromhex(h) for h in case.get("frames", [])]
-    if not frames:
+    if not case.get("frames"):
         raise core.Infra("nothing to replay")
     stream = case.get("stream") or ""
     ctx.count("replay", "replay")
     if stream.startswith("model/"):
         # found by the model-side streams: their oracle (and the comparison with the model) decides
         from . import c10_model
-        c10_model.replay_frames(ctx, frames, case.get("template") or "replay", stream[6:])
+        c10_model.replay_frames(ctx, c10_model.unhex(case["frames"]), case.get("template") or "replay", stream[6:],
+                                [c10_model.unhex(h) for h in case.get("history", [])])
         return
+    frames = [bytes.fromhex(h) for h in case.get("frames", [])]
     Device = C.build()
     dev = Device()
     out = dev.inject(frames)
@@ -307,4 +310,4 @@ def replay(ctx, payload):
             from . import c10_model
         except ImportError:
             return
-        c10_model.replay_frames(ctx, frames, "replay", "replay")
+        c10_model.replay_frames(ctx, c10_model.norm(frames), "replay", "replay")
